@@ -42,20 +42,19 @@ Definition leaf_world (w : world) (self : id) (n : node) (cn : node) (k : nat) :
           (w_next w + 1) (w_files w) (w_models w).
 
 Lemma create_inner_val self name pos version w r w' :
-  TreeFacts w ->
+  self <> w_next w ->
   create_sub_element_inner T self name pos version w = Val (r, w') ->
   (w' = w /\ exists e, r = ER e) \/
   exists n et ix, w_nodes w self = Some n /\ find_sub_element T (n_type n) name version = Val (Some (et, ix)) /\
     (N.to_nat pos <= List.length (n_content n))%nat /\ r = OK (w_next w) /\
     w' = leaf_world w self n (new_node (PElem self) name et) (N.to_nat pos).
 Proof.
-  intros HF H. unfold create_sub_element_inner in H.
+  intros Hne H. unfold create_sub_element_inner in H.
   wstep H; [|winv E]. winv E. wstep H; [|winv E]. winv E.
   destruct v as [[et ix]|]; [|winv H; left; eauto].
   wstep H; [|winv E]. winv E. destruct v; [winv H; left; eauto|].
   wstep H. 2:{ apply alloc_inv in E as ([=] & _). }
   apply alloc_inv in E as (Ea & ->). injection Ea as ->.
-  assert (Hne : self <> w_next w) by (pose proof (tf_alloc _ HF _ _ Hn); lia).
   wstep H.
   - unfold content_insert in E. wstep E; try solve [winv E0]. winv E0. cbn in Hn0. rewrite upd_neq in Hn0 by exact Hne.
     rewrite Hn in Hn0. injection Hn0 as <-.
@@ -77,11 +76,12 @@ Qed.
 Lemma inv04_attach_leaf w self n cn k :
   TreeFacts w -> Inv04 w -> w_nodes w self = Some n -> n_content cn = [] ->
   (k <= List.length (n_content n))%nat -> n_name n <> name_short_name T ->
+  content_mode T (n_type n) <> Val MCharacters ->
   (k = O -> identifiable_n T w n = false /\ (named T (n_type n) = true -> n_name cn <> name_short_name T)) ->
   (n_name cn = name_short_name T -> short_type T check_fn (n_type cn)) ->
   Inv04 (leaf_world w self n cn k).
 Proof.
-  intros HF HI Hself Hleaf Hk Hns Hfront Hst.
+  intros HF HI Hself Hleaf Hk Hns Hmode Hfront Hst.
   set (c := w_next w). set (w' := leaf_world w self n cn k).
   assert (Hc : w_nodes w c = None).
   { destruct (w_nodes w c) as [x|] eqn:E; [|reflexivity]. pose proof (tf_alloc _ HF _ _ E). unfold c in *. lia. }
@@ -105,7 +105,7 @@ Proof.
   assert (Hroots : forall m, option_map m_root (model_at w' m) = option_map m_root (model_at w m)) by reflexivity.
   assert (Holdnew : forall j nj, w_nodes w' j = Some nj -> old w j \/ j = c).
   { intros j nj Hj. destruct (w_nodes w j) as [x|] eqn:E; [left; eexists; eauto|right; eapply Hnew; eauto]. }
-  destruct HI as [I1 I2 I3 I4 I5].
+  destruct HI as [I1 I2 I3 IL I4 I5].
   constructor.
   - (* ShortTyped *)
     intros j nj Hj Hnm. destruct (Holdnew _ _ Hj) as [Ho| ->].
@@ -119,6 +119,10 @@ Proof.
     intros j nj Hj Hid. destruct (Holdnew _ _ Hj) as [Ho| ->].
     + eapply (allnamed_old T w w' self c n k); eauto.
     + rewrite Hc' in Hj. injection Hj as <-. rewrite (leaf_not_identifiable T _ _ Hleaf) in Hid. discriminate.
+  - (* CharsLeaf *)
+    intros j nj Hj Hm. destruct (Holdnew _ _ Hj) as [Ho| ->].
+    + eapply (charsleaf_old T w w' self c n k); eauto.
+    + rewrite Hc' in Hj. injection Hj as <-. rewrite Hleaf. reflexivity.
   - (* IndexExact *)
     intros m x Hx p i. change (model_at w' m) with (model_at w m) in Hx. rewrite (I4 m x Hx p i).
     destruct (w_nodes w i) as [ni|] eqn:Ei.
@@ -165,11 +169,12 @@ Proof.
   assert (Hcore : forall n s e pos, w_nodes w h = Some n -> calc_element_insert_range T n name v w = Val (OK (s, e), w) ->
             (N.to_nat pos = O -> identifiable_n T w n = false /\ (named T (n_type n) = true -> name <> name_short_name T)) ->
             create_sub_element_inner T h name pos v w = Val (r, w') -> Inv04 w').
-  { intros n s e pos Hn Hr Hfront Hc. apply create_inner_val in Hc; [|exact HF].
+  { intros n s e pos Hn Hr Hfront Hc. apply create_inner_val in Hc; [|pose proof (tf_alloc _ HF _ _ Hn); lia].
     destruct Hc as [(-> & _)|(n2 & et & ix & Hn2 & Hfind & Hlen & _ & ->)]; [exact HI|].
     rewrite Hn in Hn2. injection Hn2 as <-.
     apply inv04_attach_leaf; auto.
     - eapply range_not_short; eauto. apply (i4_short _ _ _ HI).
+    - eapply calc_range_mode; eauto.
     - cbn [new_node n_name]. intros Hs. subst name. eapply (tk_short _ _ TK); eauto. }
   destruct pos_opt as [pos|].
   - unfold raw_create_sub_element_at in H. wstep H; try solve [winv E; exact HI]. winv E.
@@ -181,7 +186,7 @@ Proof.
 Qed.
 
 Theorem C04_create_sub h name w r w' :
-  TreeFacts w -> Inv04 w -> Known04 T tab_en LATEST w (OpCreateSub h name) = false ->
+  TreeFacts w -> Inv04 w -> Known04 T LATEST w (OpCreateSub h name) = false ->
   e_create_sub_element T LATEST h name w = Val (r, w') -> Inv04 w'.
 Proof.
   intros HF HI HK H. unfold e_create_sub_element in H. wstep H; [|exact HI].
@@ -189,7 +194,7 @@ Proof.
 Qed.
 
 Theorem C04_create_sub_at h name pos w r w' :
-  TreeFacts w -> Inv04 w -> Known04 T tab_en LATEST w (OpCreateSubAt h name pos) = false ->
+  TreeFacts w -> Inv04 w -> Known04 T LATEST w (OpCreateSubAt h name pos) = false ->
   e_create_sub_element_at T LATEST h name pos w = Val (r, w') -> Inv04 w'.
 Proof.
   intros HF HI HK H. unfold e_create_sub_element_at in H. wstep H; [|exact HI].
@@ -197,7 +202,7 @@ Proof.
 Qed.
 
 Theorem C04_get_or_create_sub h name w r w' :
-  TreeFacts w -> Inv04 w -> Known04 T tab_en LATEST w (OpGetOrCreate h name) = false ->
+  TreeFacts w -> Inv04 w -> Known04 T LATEST w (OpGetOrCreate h name) = false ->
   e_get_or_create_sub_element T LATEST h name w = Val (r, w') -> Inv04 w'.
 Proof.
   intros HF HI HK H. unfold e_get_or_create_sub_element in H. wstep H; [|exact HI].
